@@ -322,3 +322,291 @@ M.contract(P_PSE + ':run_instructions_phase_step',
                'ensures': lambda exc, step, ghost:
                stopped_at_failure(ghost, exc.failure.status) and exc.failure.failure_info.phase_step is step}},
            raises_only=())
+
+# ====================================================================================== layers 3 and 4: _PartialExecutor
+from exactly_lib.execution.partial_execution.impl import executor as pex, act_helper as pah, atc_execution as pax, \
+    symbol_validation as psv
+from exactly_lib.execution.partial_execution.configuration import ConfPhaseValues, TestCase
+from exactly_lib.execution.partial_execution.result import PartialExeResult
+from exactly_lib.execution.configuration import ExecutionConfiguration
+from exactly_lib.test_case.phases.act.actor import Actor, ActionToCheck, ParseException
+from exactly_lib.test_case.phases.cleanup import PreviousPhase
+from exactly_lib.test_case.result import svh, sh, pfh, eh
+from exactly_lib.util.name_and_value import NameAndValue
+from exactly_lib.util.symbol_table import SymbolTable
+
+P_EX = 'exactly_lib.execution.partial_execution.impl.executor'
+P_AH = 'exactly_lib.execution.partial_execution.impl.act_helper'
+P_AX = 'exactly_lib.execution.partial_execution.impl.atc_execution'
+P_SV = 'exactly_lib.execution.partial_execution.impl.symbol_validation'
+
+S = phase_step
+SDS = 'SDS'     # the event of sandbox construction (not a phase step)
+
+# the documented sequence of steps (cleanup/main, which may come after any step once the sandbox exists, left out)
+CANONICAL = [
+    S.ACT__PARSE,
+    S.SETUP__VALIDATE_SYMBOLS, S.ACT__VALIDATE_SYMBOLS, S.BEFORE_ASSERT__VALIDATE_SYMBOLS,
+    S.ASSERT__VALIDATE_SYMBOLS, S.CLEANUP__VALIDATE_SYMBOLS,
+    S.SETUP__VALIDATE_PRE_SDS, S.ACT__VALIDATE_PRE_SDS, S.BEFORE_ASSERT__VALIDATE_PRE_SDS,
+    S.ASSERT__VALIDATE_PRE_SDS, S.CLEANUP__VALIDATE_PRE_SDS,
+    SDS,
+    S.SETUP__MAIN,
+    S.SETUP__VALIDATE_POST_SETUP, S.ACT__VALIDATE_POST_SETUP, S.BEFORE_ASSERT__VALIDATE_POST_SETUP,
+    S.ASSERT__VALIDATE_POST_SETUP,
+    S.ACT__VALIDATE_EXE_INPUT, S.ACT__PREPARE,
+    S.ACT__EXECUTE,
+    S.BEFORE_ASSERT__MAIN,
+    S.ASSERT__MAIN,
+]
+UP_TO_ACT_EXECUTE = CANONICAL[:CANONICAL.index(S.ACT__EXECUTE) + 1]
+
+
+# ----- results of instructions / of the action to check, and the kind of failure each stands for
+
+SVH = Inst(svh.SuccessOrValidationErrorOrHardError, _tuple=[Opt(Bool), Opt(Any_)])
+SH = Inst(sh.SuccessOrHardError, _tuple=[Opt(Any_)])
+PFH = Inst(pfh.PassOrFailOrHardError, _tuple=[EnumOf(pfh.PassOrFailOrHardErrorEnum), Opt(Any_)])
+EH = Inst(eh.ExitCodeOrHardError, _tuple=[Opt(Int), Opt(Any_)])
+
+
+def svh_kind(r):
+    """documented reading of a SuccessOrValidationErrorOrHardError (is_hard_error, failure_message)"""
+    if r[1] is None:
+        return None
+    return 'VALIDATION_ERROR' if r[0] is False else 'HARD_ERROR'
+
+
+def sh_kind(r):
+    return None if r[0] is None else 'HARD_ERROR'
+
+
+def pfh_kind(r):
+    return None if r[0] is pfh.PassOrFailOrHardErrorEnum.PASS else r[0].name
+
+
+def eh_kind(r):
+    return None if r[0] is not None else 'HARD_ERROR'
+
+
+def kind_of_raised(exc):
+    return 'HARD_ERROR' if isinstance(exc, HardErrorException) else 'INTERNAL_ERROR'
+
+
+RAISES = (_mk_hard_error, _mk_arbitrary)
+
+
+# ----- environment objects (opaque; what they are is C04 / C11's subject)
+
+class SymbolTableI(Interface):
+    target_class = SymbolTable
+    methods = {'copy': Method(returns=Iface(lambda: SymbolTableI))}
+
+
+class SdsI(Interface):
+    attrs = {'root_dir': Any_, 'act_dir': Any_, 'internal_tmp_dir': Any_, 'result': Any_}
+
+
+class PreSdsEnvI(Interface):
+    attrs = {'symbols': Iface(SymbolTableI), 'hds': Any_, 'proc_exe_settings': Any_, 'mem_buff_size': Any_}
+
+
+class PostSdsEnvI(PreSdsEnvI):
+    attrs = {'sds': Any_, 'tcds': Any_, 'tmp_dir__path_access': Any_}
+
+
+class TmpSpaceFactoryI(Interface):
+    methods = {name: Method(returns=Any_) for name in
+               ('for_phase__main', 'for_phase__validation', 'instruction__main', 'instruction__validation')}
+
+
+class InstructionSettingsI(Interface):
+    methods = {'timeout_in_seconds': Method(returns=Opt(Int)), 'environ': Method(returns=Opt(Any_))}
+    attrs = {'default_environ_getter': Any_}
+
+
+class AtcInputI(Interface):
+    """AdvWValidation[AtcExecutionInput]: `validate` gives an error message or None"""
+    methods = {'validate': Method(returns=Opt(Any_), may_raise=RAISES, event='atc_input.validate'),
+               'resolve': Method(returns=Any_, may_raise=RAISES)}
+
+
+class SettingsHandlerI(Interface):
+    attrs = {'builder': Any_}
+    methods = {'as_atc_execution_input': Method(returns=Iface(AtcInputI))}
+
+
+class AtcI(Interface):
+    """The action to check: every step returns a value of its result type, raises HardErrorException
+    or raises anything else."""
+    target_class = ActionToCheck
+    methods = {
+        'symbol_usages': Method(returns=Any_, may_raise=RAISES, event='atc.symbol_usages'),
+        'validate_pre_sds': Method(returns=SVH, may_raise=RAISES, event='atc.validate_pre_sds'),
+        'validate_post_setup': Method(returns=SVH, may_raise=RAISES, event='atc.validate_post_setup'),
+        'prepare': Method(returns=SH, may_raise=RAISES, event='atc.prepare'),
+        'execute': Method(returns=EH, may_raise=RAISES, event='atc.execute'),
+    }
+
+
+def _mk_parse_exception(interp, o):
+    e = ParseException.__new__(ParseException)
+    e.cause = Any_.make(interp, 'parse_exception.cause')
+    return e
+
+
+class ActorI(Interface):
+    target_class = Actor
+    methods = {'parse': Method(returns=Iface(AtcI), may_raise=(_mk_parse_exception,) + RAISES, event='actor.parse')}
+
+
+ATC_OUTCOME = Inst(ActionToCheckOutcome, _tuple=[Int])
+ATC_EXECUTOR = Inst(pax.ActionToCheckExecutor,
+                    atc=Iface(AtcI), environment_for_validate_post_setup=Iface(PostSdsEnvI),
+                    environment_for_other_steps=Iface(PostSdsEnvI), os_services=Any_, tcds=Any_,
+                    atc_input=Iface(AtcInputI), exe_atc_and_skip_assertions=Opt(Any_), _atc_outcome=Opt(ATC_OUTCOME))
+ATC_EXECUTOR_NEW = Inst(pax.ActionToCheckExecutor,
+                        atc=Iface(AtcI), environment_for_validate_post_setup=Iface(PostSdsEnvI),
+                        environment_for_other_steps=Iface(PostSdsEnvI), os_services=Any_, tcds=Any_,
+                        atc_input=Iface(AtcInputI), exe_atc_and_skip_assertions=Opt(Any_), _atc_outcome=Const(None))
+
+EXE_CONF = Inst(ExecutionConfiguration,
+                _tuple=[Opt(Any_), Any_, Iface(SymbolTableI), Opt(Any_), Any_, Int, Any_, Opt(Int)])
+CONF_VALUES = Inst(ConfPhaseValues, _tuple=[Inst(NameAndValue, _tuple=[Str, Iface(ActorI)]), Any_])
+TEST_CASE = Inst(TestCase, _tuple=[PHASE, PHASE, PHASE, PHASE, PHASE])
+
+
+def _mk_act_helper(interp, name, actor_name, act_phase):
+    h = object.__new__(pah.ActHelper)
+    h._actor_name = actor_name
+    h.act_phase = act_phase
+    h.instructions = Any_.make(interp, name + '.instructions')
+    h.act_source_str = Str.make(interp, name + '.act_source_str')
+    return h
+
+
+# assumed: the constructor of ActHelper stores its arguments; the list of act-phase instructions and their
+# source text are derived values that only travel to Actor.parse and into error messages.
+# (It raises if an element of [act] is not an ActPhaseInstruction: what the parser produces is.)
+M.model(pah.ActHelper, lambda interp, args, kwargs: _mk_act_helper(interp, 'act_helper', *args, **kwargs))
+M.trust('ActHelper.__init__ stores actor name and act phase; extracting the instructions of [act] and formatting '
+        'their source does not raise (the act phase consists of ActPhaseInstructions, as the parser guarantees)')
+
+
+def _mk_partial_executor(stage):
+    """_PartialExecutor as __init__ leaves it ('initial'), or later: 'pre-sds' (environment for validation
+    set), 'post-sds' (sandbox exists), 'act' (executor of the action to check constructed)."""
+
+    def mk(interp, name):
+        x = object.__new__(pex._PartialExecutor)
+        exe_conf = EXE_CONF.make(interp, name + '.exe_conf')
+        conf_values = CONF_VALUES.make(interp, name + '.conf_values')
+        x.conf = pex.Configuration(exe_conf, conf_values, Any_.make(interp, name + '.mk_setup_settings_handler'))
+        x.exe_conf = exe_conf
+        x.conf_values = conf_values
+        x._test_case = TEST_CASE.make(interp, name + '._test_case')
+        x._setup_settings_handler = Iface(SettingsHandlerI).make(interp, name + '._setup_settings_handler')
+        x._source_setup = None
+        x._os_services = Any_.make(interp, name + '._os_services')
+        x._act_phase_executor = None
+        x._action_to_check = None
+        x._instruction_environment_pre_sds = None
+        x._PartialExecutor__sandbox_directory_structure = None
+        x._action_to_check_outcome = None
+        x._phase_tmp_space_factory = None
+        x._act_helper = _mk_act_helper(interp, name + '._act_helper', conf_values.actor.name, x._test_case.act_phase)
+        x._instruction_settings = Iface(InstructionSettingsI).make(interp, name + '._instruction_settings')
+        if stage in ('pre-sds', 'post-sds', 'act'):
+            x._action_to_check = Iface(AtcI).make(interp, name + '._action_to_check')
+            x._instruction_environment_pre_sds = Iface(PreSdsEnvI).make(interp, name + '._env_pre_sds')
+        if stage in ('post-sds', 'act'):
+            x._PartialExecutor__sandbox_directory_structure = Iface(SdsI).make(interp, name + '.sds')
+            x._phase_tmp_space_factory = Iface(TmpSpaceFactoryI).make(interp, name + '._phase_tmp_space_factory')
+            x._PartialExecutor__post_sds_symbol_table = Iface(SymbolTableI).make(interp, name + '.post_sds_symbols')
+        if stage == 'act':
+            x._act_phase_executor = ATC_EXECUTOR.make(interp, name + '._act_phase_executor')
+        return x
+
+    return Custom(mk)
+
+
+def act_failure_shape(step):
+    return Inst(PhaseStepFailure,
+                _PhaseStepFailure__status=EnumOf(ExecutionFailureStatus),
+                _PhaseStepFailure__failure_info=Inst(ActPhaseFailureInfo,
+                                                     _FailureInfo__phase_step=Const(step),
+                                                     _FailureInfo__failure_details=Any_,
+                                                     _actor_name=Str, _phase_source=Str))
+
+
+def result_state(self):
+    """the state of the executor that the final result is built from"""
+    return self._sds, self._action_to_check_outcome
+
+
+def keeps_result_state(self, old):
+    return self._sds is old[0] and self._action_to_check_outcome is old[1]
+
+
+# ----- the step methods: (step constant, executor class, phase of the test case, stage at which it runs)
+
+INSTRUCTION_STEPS = {
+    '_setup__validate_pre_sds': (S.SETUP__VALIDATE_PRE_SDS, psx.SetupValidatePreSdsExecutor, 'setup_phase', 'pre-sds'),
+    '_before_assert__validate_pre_sds': (S.BEFORE_ASSERT__VALIDATE_PRE_SDS, psx.BeforeAssertValidatePreSdsExecutor,
+                                         'before_assert_phase', 'pre-sds'),
+    '_assert__validate_pre_sds': (S.ASSERT__VALIDATE_PRE_SDS, psx.AssertValidatePreSdsExecutor, 'assert_phase',
+                                  'pre-sds'),
+    '_cleanup__validate_pre_sds': (S.CLEANUP__VALIDATE_PRE_SDS, psx.CleanupValidatePreSdsExecutor, 'cleanup_phase',
+                                   'pre-sds'),
+    '_setup__main': (S.SETUP__MAIN, psx.SetupMainExecutor, 'setup_phase', 'post-sds'),
+    '_setup__validate_post_setup': (S.SETUP__VALIDATE_POST_SETUP, psx.SetupValidatePostSetupExecutor, 'setup_phase',
+                                    'act'),
+    '_before_assert__validate_post_setup': (S.BEFORE_ASSERT__VALIDATE_POST_SETUP,
+                                            psx.BeforeAssertValidatePostSetupExecutor, 'before_assert_phase', 'act'),
+    '_assert__validate_post_setup': (S.ASSERT__VALIDATE_POST_SETUP, psx.AssertValidatePostSetupExecutor,
+                                     'assert_phase', 'act'),
+    '_before_assert__main': (S.BEFORE_ASSERT__MAIN, psx.BeforeAssertMainExecutor, 'before_assert_phase', 'act'),
+    '_assert__main': (S.ASSERT__MAIN, psx.AssertMainExecutor, 'assert_phase', 'act'),
+    '_cleanup_main': (S.CLEANUP__MAIN, psx.CleanupMainExecutor, 'cleanup_phase', 'post-sds'),
+}
+
+
+def run_steps(trace):
+    """the phase steps run (events of run_instructions_phase_step), with their outcome events"""
+    return [e for e in trace if e[0] in ('run-step', 'run-step:returned', 'run-step:raised')]
+
+
+def runs_one_step(trace, step, executor_class, phase_contents):
+    rs = run_steps(trace)
+    return len(rs) == 2 and rs[0][0] == 'run-step' and rs[0][1]['step'] is step \
+        and type(rs[0][1]['instruction_executor']) is executor_class and rs[0][1]['phase_contents'] is phase_contents
+
+
+def _instruction_step_contract(method, step, executor_class, phase_attr, stage):
+    params = dict(self=_mk_partial_executor(stage))
+    if method == '_cleanup_main':
+        params['previous_phase'] = EnumOf(PreviousPhase)
+    same_step = lambda self, trace: \
+        runs_one_step(trace, step, executor_class, getattr(self._test_case, phase_attr))
+    ensures = {
+        'runs exactly its phase step: constant, executor class, phase': same_step,
+        'returns iff the phase step succeeded': lambda trace: run_steps(trace)[1][0] == 'run-step:returned',
+        'keeps sandbox and outcome of the action to check': lambda self, old: keeps_result_state(self, old),
+    }
+    if method == '_cleanup_main':
+        ensures['cleanup instructions are told the previous phase'] = lambda previous_phase, trace: \
+            run_steps(trace)[0][1]['instruction_executor']._previous_phase is previous_phase
+    M.contract('%s:_PartialExecutor.%s' % (P_EX, method), params=params, event=method,
+               old=lambda self: result_state(self),
+               ensures=ensures,
+               raises={PhaseStepFailureException: {
+                   'shape': Inst(PhaseStepFailureException, failure=instruction_failure_shape(step)),
+                   'ensures': lambda self, exc, old, trace:
+                   same_step(self, trace) and run_steps(trace)[1][0] == 'run-step:raised'
+                   and exc is run_steps(trace)[1][2] and exc.failure.failure_info.phase_step is step
+                   and keeps_result_state(self, old)}},
+               raises_only=())
+
+
+for _m, (_step, _cls, _attr, _stage) in INSTRUCTION_STEPS.items():
+    _instruction_step_contract(_m, _step, _cls, _attr, _stage)
